@@ -496,6 +496,13 @@ def run(repo, chk):
     chk.ob("R18.4", "selector.parser:lexer:no-empty-match", bool(pats) and all(w >= 1 for w in widths), "ptera/selector.py (parser = ...)",
            f"every token pattern matches at least one character (minimum widths {widths}), so the lexer always makes progress")
     pp = repo.func("opparse.Parser.process")
-    tp = norm(pp.node)
-    chk.ob("R18.4", "opparse.Parser.process:variant", tp.count("right = _next()") >= 3 and "current = stack.pop()" in tp and "return middle" in tp, pp.where,
+    from ..cfg import CFG
+    gpp = CFG(pp.node, lambda s_: isinstance(s_, (ast.Raise, ast.Assert)))
+    heads = [n for n in gpp.nodes if n.kind == "test" and isinstance(n.stmt, ast.While)]
+    progress = [n for n in gpp.nodes if n.kind == "stmt" and n.stmt is not None and any(isinstance(c, ast.Call) and (norm(c.func) == "_next" or norm(c.func) == "stack.pop") for c in ast.walk(n.stmt))
+                and any(n.stmt is x for h in heads for x in ast.walk(h.stmt))]
+    # no way around the loop without taking a token or popping the handle stack; and the loop can be left by a return
+    ok = len(heads) == 1 and bool(progress) and not any(gpp.path_exists(m, heads[0], avoid=progress, labels=("n", "t", "f")) for m, lab in heads[0].succ if lab == "t") \
+        and any(isinstance(x, ast.Return) for x in ast.walk(heads[0].stmt))
+    chk.ob("R18.4", "opparse.Parser.process:variant", ok, pp.where,
            "every iteration of the parser loop consumes a token (open / merge) or pops the handle stack (close); it returns when both sides are exhausted")
